@@ -1291,7 +1291,10 @@ class Engine:
         if isinstance(st, ast.While):
             return self.while_loop(st, env, pc)
         if isinstance(st, ast.Raise):
-            exc = self.exc_name(st.exc)
+            if st.exc is None and isinstance(env.get("__exc__"), VFunc):
+                exc = env["__exc__"].name        # bare `raise` inside a handler re-raises the handled exception
+            else:
+                exc = self.exc_name(st.exc)
             return [Outcome("raise", env, pc, exc=exc, line=st.lineno)]
         if isinstance(st, ast.Try):
             return self.try_stmt(st, env, pc)
@@ -1341,6 +1344,7 @@ class Engine:
                     names = ["BaseException"] if h.type is None else ([self.exc_name(x) for x in h.type.elts] if isinstance(h.type, ast.Tuple) else [self.exc_name(h.type)])
                     if exc_matches(o.exc, names):
                         henv = dict(o.env)
+                        henv["__exc__"] = VFunc(o.exc)
                         if h.name:
                             henv[h.name] = VObj(fresh("exc", OBJ))
                         after.extend(self.run(h.body, henv, o.pc))
